@@ -656,6 +656,41 @@ func (it *Interp) step(i int, op *Op) {
 	case "tick":
 		w.Height += uint64(op.N)
 
+	case "sign":
+		// every bonded validator confirms every outgoing tx it has not confirmed yet (all chains)
+		pre := it.preSnap()
+		gid := []byte(it.H.Cfg.GravityId)
+		for _, c2 := range ExtChains {
+			for vi, v := range it.H.Staking.Vals {
+				if !v.Bonded {
+					continue
+				}
+				signer := sim.EthAddr(vi, c2, 0).Hex()
+				key := sim.EthKey(vi, c2, 0)
+				var confs []mtypes.ExternalTxConfirmation
+				for _, ss := range pre.Chains[c2].SignerSets {
+					sg, _ := mtypes.NewEthereumSignature(ss.GetCheckpoint(gid), key)
+					confs = append(confs, &mtypes.SignerSetTxConfirmation{SignerSetNonce: ss.Nonce, ExternalSigner: signer, Signature: sg})
+				}
+				for _, b := range pre.Chains[c2].Batches {
+					sg, _ := mtypes.NewEthereumSignature(b.GetCheckpoint(gid), key)
+					confs = append(confs, &mtypes.BatchTxConfirmation{ExternalTokenId: b.ExternalTokenId, BatchNonce: b.BatchNonce, ExternalSigner: signer, Signature: sg})
+				}
+				for _, cf := range confs {
+					any, err := mtypes.PackConfirmation(cf)
+					if err != nil {
+						continue
+					}
+					if r := it.H.Deliver(&mtypes.MsgSubmitExternalTxConfirmation{Confirmation: any, Signer: sdk.AccAddress(sim.ValAddr(vi)).String(), ChainId: c2}); r.Err == nil {
+						it.Stats["confirm-ok"]++
+					}
+				}
+			}
+		}
+		post := it.Snap()
+		it.cur = post
+		it.notify(&StepInfo{Idx: i, Op: op, Phase: "op", Pre: pre, Post: post, Note: "confirmations"})
+
 	case "oprice":
 		pre := it.preSnap()
 		epoch := it.H.O.GetCurrentEpoch(it.H.Ctx())
